@@ -22,7 +22,9 @@ THEOREMS = ["LNN.C14_get_missing",
             "LNN.C14_axiom_invariant",
             "LNN.C14_query_unknown",
             "LNN.C15_resetWorld_reads_world",      # reset_world: stated next to the reset_bounds theorems they build on
-            "LNN.C15_resetWorld_then_reset"]
+            "LNN.C15_resetWorld_then_reset",
+            "LNN.C14_propagate_only_world",
+            "LNN.C14_propagate_read_unchanged"]
 MODULES = ["LnnVerif.Props.C14", "LnnVerif.Props.C15"]
 
 
